@@ -154,6 +154,7 @@ class ConnSock(_Base):
             self.send_after_close += 1
             raise _err(errno.EBADF)
         if self.peer_rst:
+            self.send_failed_epipe = True
             raise _err(errno.EPIPE)
         if self.blocked:
             raise _err(errno.EAGAIN)
